@@ -133,6 +133,8 @@ class Sim:
             self.s["journal"].append(entry)
             if fault == "rc1":
                 return 1, "", f"{exe}: something went wrong\n"
+            if fault == "rc1_silent":  # fails, complains on stdout only (as SGE's qdel does), nothing on stderr
+                return 1, f"{exe}: request denied\n", ""
             if fault == "stderr_error":
                 return 0, "", f"{exe}: error: Socket timed out on send/recv operation\n"
             if fault == "garbage":
